@@ -324,6 +324,19 @@ def check_is_or_operator(
     return False
 
 
+def is_silent_leaf(node: ProcessTree) -> bool:
+    """Method to check if a node is a silent ("tau") leaf of the miner, i.e.
+    a leaf without a label. The string form of the node is not used as an
+    event that is itself called "tau" has the same string form.
+
+    :param node: The node.
+    :type node: :class:`pm4py.objects.process_tree.obj.ProcessTree`
+    :return: Whether the node is a silent leaf.
+    :rtype: `bool`
+    """
+    return node.operator is None and node.label is None
+
+
 def infer_or_gate_from_node(
     event_sets: set["ev.EventSet"],
     node: ProcessTree,
@@ -346,7 +359,9 @@ def infer_or_gate_from_node(
         if child.operator is None:
             non_tau_children.append(child)
         elif child.operator.value == Operator.XOR.value:
-            if any(str(grandchild) == "tau" for grandchild in child.children):
+            if any(
+                is_silent_leaf(grandchild) for grandchild in child.children
+            ):
                 tau_children.append(child)
             else:
                 non_tau_children.append(child)
@@ -357,7 +372,7 @@ def infer_or_gate_from_node(
         removed_tau_children = []
         for child in tau_children:
             for grandchild in child.children:
-                if str(grandchild) != "tau":
+                if not is_silent_leaf(grandchild):
                     grandchild.parent = node
                     removed_tau_children.append(grandchild)
         if check_is_or_operator(
